@@ -496,6 +496,26 @@ func TestC10(t *testing.T) {
 			gapCases.Add(1)
 			judge(text, map[string]any{"class": "comment-in-gap", "style": fmt.Sprintf("comment %q after token %d (%q)", c, g, toks[g].S), "index": i})
 		})
+		// declaration order: the permits block before the related block, and permissions in reverse order
+		// (so that this.permits.X / this.related.R refer to something declared LATER in the class)
+		for do := 1; do <= 3; do++ {
+			for _, layout := range []int{LayoutPretty} {
+				st := Style{CtxType: true, BoolType: true, LambdaParen: true, DeclOrder: do}
+				text, _ := Join(prog.Tokens(st), layout, -1, "")
+				variants.Add(1)
+				cnt.evals.Add(1)
+				nss, errs := schema.Parse(text)
+				what := map[string]any{"class": "declaration-order", "style": fmt.Sprintf("decl-order=%d", do), "doc": text, "document": progName[pi]}
+				if len(errs) > 0 {
+					agg.add("variant-rejected:declaration-order", fmt.Sprintf("%s with declaration order %d (forward references) rejected: %s", progName[pi], do, errs[0].ToAPI().Message), len(text), what)
+					continue
+				}
+				cnt.accepted.Add(1)
+				if got, w := normNamespacesUnordered(nss), normNamespacesUnordered(prog.Denotes()); got != w {
+					agg.add("variant-misread:declaration-order", fmt.Sprintf("%s with declaration order %d denotes %s but parsed to %s", progName[pi], do, w, got), len(text), what)
+				}
+			}
+		}
 		if pi == 1 {
 			st2, _ := styleOf(1 + 3*2 + 2*3*2*2*2) // Array<>, ['x'] access, quoted names
 			tx, _ := Join(prog.Tokens(st2), LayoutCompact, -1, "")
